@@ -4,7 +4,7 @@ From Coq Require Import List NArith ZArith.
 From GoMC Require Import Base.Bytes Base.Dec Gen.Consts Model.C01 Model.C02 Proofs.C01 Proofs.C01_dec Proofs.C01_more
   Proofs.C02_dec Proofs.C02 Proofs.C02_struct Proofs.C02_all Proofs.C02_emb.
 From GoMC Require Import Base.GoInt Model.C02_syntax Gen.C02gen Proofs.C02_expected Proofs.C02_tie Proofs.C02_tie2
-  Proofs.C02_tie3 Proofs.C02_tie4 Proofs.C02_tie5 Proofs.C02_emb2 Proofs.C02_tie6 Proofs.C02_tie7.
+  Proofs.C02_tie3 Proofs.C02_tie4 Proofs.C02_tie5 Proofs.C02_emb2 Proofs.C02_tie6 Proofs.C02_tie7 Proofs.C02_emb3.
 From GoMC Require Model.C03_syntax Gen.C03gen.
 Import ListNotations.
 Open Scope N_scope.
@@ -479,3 +479,22 @@ Print Assumptions C02_collect_perm.
 Print Assumptions C02_collect_final.
 Print Assumptions C02_byte_elem_ok.
 Print Assumptions C02_wide_elem_ok.
+
+(* THE ROUND TRIP THROUGH EMBEDDED STRUCTS AS ONE EQUATION: Unmarshal of what Marshal wrote, into a fresh struct, gives the
+   nested value canon_emb (Model/C02.v): the visible, reached and written fields in normal form (emb_expected_fields,
+   defined from the table, the index sequences and canon only) placed at their index sequences, zero values at every
+   other leaf, embedded pointers nil exactly where nothing beneath was placed; that the placed fields are found at their
+   own index sequences is C02_decoder_stores / C02_embedded_roundtrip *)
+Theorem C02_embedded_roundtrip_full : forall ds vs tr,
+  forallb (fun tf => andb (negb (f_skip (tf_fi tf))) (all_bytesb (f_name (tf_fi tf)))) (type_fields ds) = true ->
+  Forall rtf_ok (emb_table ds) ->
+  (forall tf x, In tf (type_fields ds) -> walk (tf_path tf) vs = Some (Some x) -> field_typed (tf_field tf) x = true) ->
+  enc_emb ds vs = TOk tr -> unm_emb tr ds = EOk (canon_emb ds vs).
+Proof. exact emb_roundtrip_full. Qed.
+(* the concrete instances of above, now through the equation *)
+Example C02_ex_embedded_full :
+  canon_emb ex_emb ex_emb_val =
+    [ VE (Some [ VE (Some [ VE (Some [VF (GvInt 0); VF (GvInt 2)]); VF (GvInt 3) ]); VF (GvInt 4) ]); VF (GvStr [120]) ] /\
+  canon_emb (ex_tie true) [VE (Some [VF (GvInt 5); VF (GvInt 6)]); VE None] = [VE (Some [VF (GvInt 0); VF (GvInt 6)]); VE None].
+Proof. split; vm_compute; reflexivity. Qed.
+Print Assumptions C02_embedded_roundtrip_full.
